@@ -36,6 +36,12 @@ CHECKS["C20"] = dict(text="The real ValueSummary and Panoptica_Statistic (get, g
 CHECKS["C18"] = dict(text="The real header construction, row writing and Panoptica_Statistic.from_file/get_one_subject run end to end over an in-memory file model with group and subject names as bounded symbolic strings (symbolic printable code points; split/rsplit/dict-key equality fork) and symbolic value kinds; 'the loader returns exactly the finite value written under the same subject/group/metric, and missing otherwise' is checked on every path.",
              note="csv text quoting and float repr round trip are trusted and exercised for real on every witness (solver-chosen names, rescaled magnitudes); name length bound; evaluator is a stub object at the aggregator boundary",
              ref="DESIGN.md section 4 / C18")
+CHECKS["C12"] = dict(text="The real SegmentationClassGroups / LabelGroup / LabelMergeGroup extraction and Panoptica_Evaluator.evaluate/_evaluate_group run on fully symbolic label maps (labels 0..4, -1..4 for signed semantic input) with panoptic_evaluate as an uninterpreted function whose arguments are recorded: each group receives exactly the restriction of both arrays to its labels (binarised for merge groups, as an already matched pair with threshold 0 for single-instance groups), inputs with an ungrouped non-zero label are rejected before any evaluation, and the caller's arrays are never written.",
+             note="'equals evaluating the restricted arrays' is reduced to the arguments handed to panoptic_evaluate; four fixed group definitions; array size bound; replays compare against an ungrouped evaluation of the restricted arrays on the real package",
+             ref="DESIGN.md section 4 / C12")
+CHECKS["C15"] = dict(text="The whole evaluate pipeline runs in the twin with write-protected caller arrays while the solver chooses (a) every combination of constructor flags and per-call options under a symbolic non-decreasing clock and (b) a history of up to two (thorough: three) operations - evaluations of other inputs, construction of other evaluators/handlers, aggregators with and without log_times, reading the metric keys - executed before the compared evaluation; metrics, advertised metric keys and saved configuration must equal those of the reference evaluation made first.",
+             note="inputs are fixed concrete label maps chosen to sit between matcher and decision threshold; serial-vs-worker equivalence only up to the order-preserving Pool contract; replays restart the real interpreter per counterexample",
+             ref="DESIGN.md section 4 / C15")
 NA = {}
 m = {"version": 1, "setup_cmd": "./bootstrap.sh",
      "hooks": {"guard": "PANOPTICA_VERIF", "enable": "no hooks in /repo: checks re-import /repo/panoptica from the working tree into a private twin with model modules substituted at import time (pv/twin.py)",
